@@ -30,36 +30,57 @@ RULE = ("a case is non-trivial when it exercises a conversion: label with a non-
 EXHAUSTIVE = {"quick": True, "thorough": True}
 EXPLANATION = ("Exhaustive: every element symbol of RDKit's periodic table x charge -4..4 through _charge_to_string / "
                "_extract_element_and_charge; every molecule-like graph on <= 3 (thorough: 4) nodes over the stated alphabet through "
-               "h_to_explicit / h_to_implicit; every two-atom ITS over the stated alphabet through its_to_gml / gml_to_its for all "
-               "(core, reindex) settings.  Seeded random: hydrogen conversions on graphs <= 9 nodes (H-H, lone H, bridging H, node "
-               "subsets, ITS mode), NXToGML.transform on arbitrary triples (colliding reindex maps), GMLToNX on arbitrary records, "
-               "synthetic ITS graphs <= 7 nodes with random insertion order.  Corpus: molecules of all corpus reactions + "
-               "corpus/molecules.txt, all corpus reactions and renumberings through the three GML routes.  Theorems: see props/C10.v.")
+               "h_to_explicit / h_to_implicit (also with the optional hcount key absent); every two-atom ITS over the stated alphabet "
+               "through its_to_gml / gml_to_its for all (core, reindex) settings.  Seeded random: hydrogen conversions on graphs <= 9 nodes "
+               "(H-H, lone H, bridging H, node subsets, ITS mode), NXToGML.transform on arbitrary triples (colliding reindex maps), GMLToNX "
+               "on arbitrary records, synthetic ITS graphs <= 7 nodes with random insertion order.  Corpus: molecules of all corpus "
+               "reactions + corpus/molecules.txt (MolToGraph / GraphToMol attribute copying under three flag settings, hydrogen conversions, "
+               "RDKit oracle), all corpus reactions and renumberings through the three GML routes.  The predicates the theorems are stated "
+               "with (total_h, h_dom, gwfb, no_H, no_tgh, its_ok, all_tgh) are evaluated by the model on every case and compared with "
+               "independent Python definitions; the distribution reports how many cases lie in each theorem's domain.  Theorems: props/C10.v.")
 TRUSTED_BASE = [
     "Coq 8.16.1 kernel + vm_compute (no native_compute)",
-    "hand-written model coq/model/C10_Model.v tied to synkit/IO/{nx_to_gml,gml_to_nx,chem_converter}.py and "
-    "synkit/Graph/Hyrogen/_misc.py by the per-run correspondence (intermediate graphs and GML records compared)",
-    "harness encoders harness/props/C10.py (networkx graph -> Gallina literal; GML text -> record by an independent tokenizer)",
+    "hand-written model coq/model/C10_Model.v tied to synkit/IO/{nx_to_gml,gml_to_nx,chem_converter,mol_to_graph,graph_to_mol}.py and "
+    "synkit/Graph/Hyrogen/_misc.py by the per-run correspondence (intermediate graphs, GML records, pre-sanitisation RWMol compared)",
+    "harness encoders harness/props/C10.py (networkx graph -> Gallina literal; GML text -> record by an independent tokenizer; "
+    "RDKit molecule -> (atoms, bonds) record by the RDKit getters the code itself calls)",
     "networkx 3.6 Graph insertion/iteration order semantics (modelled: add_node/add_edge/remove_node/copy/edges/relabel_nodes)",
-    "RDKit (parse, sanitise, write, canonical SMILES): oracle, modelled-not-verified",
+    "RDKit (parse, sanitise, aromaticity perception, write, canonical SMILES): the two contracts are explicit premises of "
+    "C10_smiles_roundtrip_under_rdkit_contract, monitored by the oracle on every molecule case",
 ]
 ASSUMPTIONS = [
     "labels, element symbols: ASCII; node ids: non-negative ints; hcount/charge/atom_map: ints; bond orders: half-integers",
-    "ITS graphs passed to its_to_gml carry (before, after) order pairs and typesGH (as produced by ITSGraph / get_rc)",
-    "hcount and aromaticity are not carried by GML (stated in C10_gml_roundtrip); stereo and isotope labels are not carried by the graph layer",
+    "domain of C10_gml_roundtrip(_reindex) / C10_two_routes_centre(_reindex) = its_ok: unique ids, one entry per bond, typesGH present with "
+    "the same element (a symbol in [A-Za-z*]+) in both halves, element/charge attributes = reactant half, (before, after) orders from "
+    "{absent, 1, 1.5, 2, 3} not both absent, standard_order = before - after (what ITSGraph / get_rc produce; 99% of the exported graphs "
+    "of a run satisfy it, see distribution.its_ok_exports)",
+    "domain of C10_h_roundtrip = graphs without explicit H; of C10_h_total_implicit = h_dom (every explicit H has hcount 0 and at most one "
+    "heavy neighbour); outside these domains the clauses fail and the proof files carry the witnesses (bridging H, H with hcount, H already explicit)",
+    "hcount and aromaticity are not carried by GML (stated in C10_gml_roundtrip: gml_node); stereo and isotope labels are not carried by the graph layer",
+    "explicit_hydrogen=True exports are covered by the correspondence and the oracle only (no theorem)",
 ]
 TESTED_NOT_PROVED = [
-    "SMILES -> graph -> SMILES equals RDKit's canonical SMILES up to stereo (RDKit-bound): oracle on every mol case",
-    "h_to_explicit / h_to_implicit leave the molecule unchanged as judged by RDKit (AddHs-canonical SMILES): oracle on every mol case",
+    "SMILES -> graph -> SMILES equals RDKit's canonical SMILES up to stereo: the RDKit half (parse, sanitise, aromaticity perception, write) "
+    "is the premise of C10_smiles_roundtrip_under_rdkit_contract; oracle clause smiles-roundtrip on every mol case",
+    "h_to_explicit / h_to_implicit leave the molecule unchanged as judged by RDKit (AddHs-canonical SMILES): oracle on every mol case "
+    "(graph-level statements are proved: C10_h_total_*, C10_h_explicit_skeleton, C10_h_implicit_skeleton, C10_h_roundtrip)",
     "GML text rendering and the line tokenisation of GMLToNX.transform (glue): correspondence only, through an independent tokenizer",
     "smart_to_gml's RDKit half (rsmi_to_graph): the adapter feeds its output to the model",
+    "explicit_hydrogen=True GML exports; core=False (full) exports on ITS graphs outside its_ok; h_to_explicit with a node subset / its=True "
+    "beyond the total count: correspondence + oracle only",
 ]
-LEVEL_TEXT = ("Machine-checked proof (Coq) over an executable model of the GML writer/reader at record level, of its_to_gml / gml_to_its / "
-              "smart_to_gml at graph level and of h_to_explicit / h_to_implicit: label round trip for every charge, hydrogen round trip and "
-              "hydrogen-count preservation, centre -> GML -> ITS round trip on atoms, charges and (before, after) orders, agreement of the "
-              "export routes.  SMILES<->graph is RDKit: tested on corpus molecules + vendored list, not proved.")
-LEVEL_NOTE = ("Trusted: Coq kernel, the hand-written model + encoders, networkx ordering semantics as modelled. Modelled, not verified: RDKit; "
-              "GML text tokenisation (correspondence only).")
+LEVEL_TEXT = ("Machine-checked proof (Coq, 14 theorems, closed under the global context) over an executable model of the GML writer/reader at "
+              "record level, of its_to_gml / gml_to_its / smart_to_gml / get_rc / its_decompose / ITSGraph at graph level, of h_to_explicit / "
+              "h_to_implicit, and of the attribute copying of MolToGraph / GraphToMol: label round trip for every element symbol and every "
+              "charge; ITS -> GML -> ITS restores atoms, both-side charges and (before, after) orders for every reaction-centre-shaped ITS, "
+              "with ids kept and under the default renumbering; the export from the reaction string, from the full ITS and from its centre "
+              "agree (equal records / rules that read back to the same ITS); hydrogen count preserved in both directions, heavy skeleton kept, "
+              "explicit-then-implicit restores the graph; molecule -> graph -> molecule hands RDKit back the atoms and bonds it gave. "
+              "SMILES<->graph through RDKit: proved only under two contracts about RDKit stated as premises, which are tested on corpus "
+              "molecules + vendored list.")
+LEVEL_NOTE = ("Trusted: Coq kernel, the hand-written model + encoders (tied to the code by the per-run correspondence on ~3100 quick cases, "
+              "intermediate values compared), networkx ordering semantics as modelled. Modelled, not verified: RDKit; GML text tokenisation "
+              "(correspondence only). Theorems are about node / bond dictionaries, not about insertion or adjacency order.")
 DESIGN_REF = "DESIGN.md section 5 C10"
 
 
